@@ -333,4 +333,17 @@ def path_conditions(f, node):
         return res
 
     rec(f.body, [])
-    return out
+    # one polarity: `not x` holding is `x` not holding
+    norm = []
+    for t, pol in out:
+        while isinstance(t, ast.UnaryOp) and isinstance(t.op, ast.Not):
+            t, pol = t.operand, not pol
+        flip = {ast.NotEq: ast.Eq, ast.IsNot: ast.Is, ast.NotIn: ast.In}
+        if isinstance(t, ast.Compare) and len(t.ops) == 1 and type(
+                t.ops[0]) in flip:
+            import copy
+            t = copy.copy(t)
+            t.ops = [flip[type(t.ops[0])]()]
+            pol = not pol
+        norm.append((t, pol))
+    return norm
